@@ -136,9 +136,19 @@ def run(tier, seed, replay=None):
                       "loop fuel: hi+1-lo iterations for the outer loops, 20 for portMask (proved sufficient: ternary never returns OutOfFuel)"]
     ck.rule = ("ranges drawn from boundary x boundary plus classes wild/exact/narrow/edge(width 99-102)/wide/inverted/0-x/x-65535, "
                "both strategies, and pairs of such ranges; a case is non-trivial when it is a true range (not wildcard, not single port); "
-               "distinct = distinct (op, strategy, lo, hi[, lo2, hi2])")
+               "distinct = distinct (op, strategy, lo, hi[, lo2, hi2]); UP4 leg: wildcard, every boundary port as a single port (incl. 1 and 65535), true ranges "
+               "of the classes narrow/edge/wide/0-x/x-65535 and 1-65535 / 0-65534 / 0-1 / 65534-65535, each x uplink / downlink x SDF filter / PFD-provisioned "
+               "application, three single-pair sessions per history on the real UP4 plug-in: the applications entry of every PDR must match exactly the ports written")
     ck.prove(TARGETS)
     rng = rng_for(seed, "C17")
+    from props import c17up4 as A
+    ck.trusted = ck.trusted + A.TRUSTED
+    if replay is not None and json.load(open(replay))["case"].get("leg") == "up4-app":
+        try:
+            A.run_leg(ck, build_harness(), [json.load(open(replay))["case"]], confirm=False)
+        except HarnessError as e:
+            ck.tie("harness builds and runs against the current tree", False, str(e)[-1500:])
+        return ck.finish()
     cases = gen_cases(rng, tier) if replay is None else [json.load(open(replay))["case"]["input"]]
     try:
         binary = build_harness()
@@ -219,11 +229,14 @@ def run(tier, seed, replay=None):
         ck.notes["port_texts_checked"] = len(tcases)
     except HarnessError as e:
         ck.tie("port-text leg runs", False, str(e)[-800:])
+    # UP4: the app_l4_port range field of the applications entries the real UP4 plug-in installs (tools/props/c17up4.py)
+    if replay is None:
+        A.run_leg(ck, binary, A.c17_histories(random.Random(rng.getrandbits(64)), boundary_ports(), gen_range))
+        dist = ck.distribution
     # system level (bess.go addPDR/delPDR): the port columns of the pdrLookup entries installed for accepted PDRs -
     # SDF filters and PFD-backed application filters with ports on either side - are exactly the Exact-strategy
     # product of the PDR's two ranges, and an unrepresentable pair installs nothing (never an approximation)
     try:
-        import random
         import l1
         from props.l1common import run_l1
         lcases = []
